@@ -9,3 +9,7 @@ import Adsg.Props.C10
 #print axioms Adsg.C10.inactive_canonical
 #print axioms Adsg.C10.two_values_each
 #print axioms Adsg.C10.unknown_pattern_inactive
+#print axioms Adsg.C10.impl_same_vector_and_matrix
+#print axioms Adsg.C10.impl_idempotent_vector_matrix
+#print axioms Adsg.C10.impl_activeness_imputed
+#print axioms Adsg.C10.impl_direct_hit_activeness_mismatch
